@@ -3,7 +3,8 @@ implementation-level oracle used to search for a concrete failing input."""
 import re
 
 from . import gen_kzg, gen_pc, gen_c16, gen_c13, gen_c08
-from .oracles import pc_honest, pc_mutations, pc_refusals, pc_hiding
+from .gen_common import R_BLS381
+from .oracles import pc_honest, pc_mutations, pc_refusals, pc_hiding, pc_domain
 
 
 def _names(*prefixes):
@@ -20,6 +21,33 @@ def lib_s(lo, name):
 
 
 # ---------------- oracles (evaluated on library observations only) ----------------
+def oracle_c17_kzg(case, lo):
+    """KZG10: out-of-domain requests (too many coefficients, hiding bound beyond the key, hiding without RNG)
+    must not produce a commitment"""
+    fails = []
+    if case.kind != "kzg10" or case.meta.get("in_domain", True):
+        return fails
+    s = int(case.fields["s"][0])
+    n = int(case.fields["n"][0])
+    for i in range(n):
+        coeffs = [int(x) % R_BLS381 for x in case.fields["poly.%d" % i]]
+        while coeffs and coeffs[-1] == 0:
+            coeffs.pop()
+        deg = max(len(coeffs) - 1, 0)
+        hb = case.fields["hb.%d" % i][0]
+        norng = case.fields["rng.%d" % i][0] == "none"
+        bad = []
+        if deg > s:
+            bad.append("degree %d > supported %d" % (deg, s))
+        if hb != "none" and norng:
+            bad.append("hiding bound without RNG")
+        if hb != "none" and int(hb) + 1 > s + 0 and not norng:
+            bad.append("hiding bound %s beyond the %d gamma powers" % (hb, s + 1))
+        if bad and lib_s(lo, "commit.%d" % i) == "ok":
+            fails.append("kzg10 commit served an out-of-domain request: " + "; ".join(bad))
+    return fails
+
+
 def oracle_c01_kzg(case, lo):
     """honest in-domain transcript must be accepted, and nothing may abort"""
     fails = []
@@ -169,7 +197,8 @@ def oracle_c08(case, lo):
     for i in range(5):
         if lib_s(lo, "reference.%d" % i) == "differs":
             fails.append("%s commitment %d differs from the independent recomputation (%s)"
-                         % (sch, i, "Merkle root over column hashes of the encoded coefficient matrix" if sch != "hyrax" else "row-wise Pedersen sums over the key"))
+                         % (sch, i, "Merkle root over column hashes of the encoded coefficient matrix" if sch in ("ligero_uni", "ligero_ml", "brakedown_ml")
+                            else "naive multi-scalar sum over the published key elements"))
     return fails
 
 
@@ -254,8 +283,8 @@ PROPS = {
     },
     "C04": {
         "props_file": "props/C04.v",
-        "flows": [(gen_pc.gen, "c04", 150, 1500)],
-        "oracles": [pc_honest, pc_refusals, lambda c, lo: pc_mutations(c, lo, ("comm_mut", "comm_swap"))],
+        "flows": [(gen_pc.gen, "c04", 150, 1500), (gen_pc.gen, "c04domain", 16, 160)],
+        "oracles": [pc_honest, pc_refusals, pc_domain, lambda c, lo: pc_mutations(c, lo, ("comm_mut", "comm_swap"))],
         "accept_diffs": ("mut.",),
         "title": "Degree bounds",
     },
@@ -284,5 +313,12 @@ PROPS = {
         "flows": [(gen_c08.gen, "c08", 160, 1600), (gen_kzg.gen, "c08", 30, 300)],
         "oracles": [oracle_c08, oracle_c01_kzg],
         "title": "Commitments are the key-defined linear map",
+    },
+    "C17": {
+        "props_file": "props/C17.v",
+        "flows": [(gen_kzg.gen, "c17", 60, 600), (gen_pc.gen, "c17", 120, 1200), (gen_pc.gen, "c17domain", 60, 600), (gen_pc.gen, "c01", 40, 400)],
+        "oracles": [oracle_c17_kzg, oracle_c01_kzg, pc_honest, pc_refusals, pc_domain, lambda c, lo: pc_mutations(c, lo, ("drop_eval", "drop_comm"))],
+        "accept_diffs": ("mut.",),
+        "title": "Out-of-domain requests are refused",
     },
 }
